@@ -243,20 +243,30 @@ func pickNames(w *simrt.Choices, n int, allowOdd bool) []string {
 
 var baseDate = time.Date(1999, 12, 31, 23, 0, 0, 0, time.UTC)
 
-// genBody returns a body of about n bytes with a unique token inside.
+// genBody returns a body of exactly n bytes (n >= 0) derived from ONE choice,
+// so that choice lists stay short and shrinkable.  The content mixes letters,
+// CR, LF, dots, NUL and 8-bit bytes.
 func genBody(w *simrt.Choices, token string, n int) []byte {
+	seed := uint64(w.Choose(1 << 16))
+	return bodyFromSeed(seed, token, n)
+}
+
+func bodyFromSeed(seed uint64, token string, n int) []byte {
 	var b bytes.Buffer
 	b.WriteString("Subject: " + token + "\r\n\r\n")
 	alphabet := "abcdefghijklmnopqrstuvwxyz \r\n.,\x00\xff"
+	x := seed*0x9E3779B97F4A7C15 + 1
 	for b.Len() < n {
-		b.WriteByte(alphabet[w.Choose(len(alphabet))])
+		x ^= x << 13
+		x ^= x >> 7
+		x ^= x << 17
+		b.WriteByte(alphabet[x%uint64(len(alphabet))])
 		if b.Len()%61 == 0 {
 			b.WriteString("\r\n")
 		}
 	}
 	out := b.Bytes()
 	if len(out) > n && n >= 0 {
-		// exact sizes matter for the size-limit properties
 		out = out[:n]
 	}
 	return out
